@@ -87,6 +87,8 @@ class ActionSummary(object):
     table_delta = self._tables[table_id]
     orig_table_id = self._table_renames.original_name(table_id)
     orig_col_id = table_delta.column_renames.original_name(col_id)
+    # Row presence is recorded under the latest name (the defunct name for a removed table).
+    delta_table_id = table_id
     table_id = root_name(table_id)
     col_id = root_name(col_id)
 
@@ -105,7 +107,7 @@ class ActionSummary(object):
       return
 
     ## Maybe add one or two undo update actions for rows that existed before the change.
-    row_ids_before = self.filter_out_new_rows(table_id, full_row_ids)
+    row_ids_before = self.filter_out_new_rows(delta_table_id, full_row_ids)
 
     if defunct:
       preserved_row_ids = []
